@@ -286,7 +286,7 @@ def check(cx):
     from . import c02, c08
     cx.include(c02, {"C02.2", "C02.4"}, "C01.9", "shared with C02.2/C02.4: the analysis pass puts every transaction with a "
                "COMMIT record into the redo set unconditionally, redo consults all operation maps, open() always recovers", floor=8)
-    cx.include(c08, {"C08.8", "C08.1"}, "C01.8", "shared with C08.8/C08.1: recovery decodes the logged images raw (never through a "
+    cx.include(c08, {"C08.8", "C08.1", "C08.13"}, "C01.8", "shared with C08.8/C08.1/C08.13 (the DDL handlers decode each payload slot as what the statement put there): recovery decodes the logged images raw (never through a "
                "snapshot) and discards the log only by a checkpoint after commit", floor=8)
 
     # ---- C01.10 (construct shared with C17.3) -----------------------------------------------------------------------
